@@ -1929,7 +1929,9 @@ theorem where_eq_spec_aux (cfg : Cfg) (t : Table) (N : Nat) (hok : t.OK N) (pos 
     (R rs : List (List Cell)) (hR : t.rows = .ok R)
     (hspec : whereS { columns := t.columns, rows := R } (kws.map (condOf pos)) = .ok rs) :
     ∃ t', t.pwhere cfg Option.none pos kws = .ok t' ∧ t'.rows = .ok rs ∧
-      t'.columns = t.columns ∧ t'.indexes = t.indexes ∧ t'.data = t.data ∧ t'.OK N := by
+      t'.columns = t.columns ∧ t'.indexes = t.indexes ∧ t'.data = t.data ∧ t'.OK N ∧
+      ∃ selection, StrictInc selection ∧ (∀ i ∈ selection, i < t.m N) ∧
+        t'.sel.idx N = selection.map (fun i => (t.sel.idx N).getD i 0) := by
   -- the table is not degenerate
   obtain ⟨kw0, hkw0⟩ := List.exists_mem_of_ne_nil kws hne
   have hcne : t.columns ≠ [] := List.ne_nil_of_mem (hkw kw0 hkw0).incols
@@ -1965,7 +1967,7 @@ theorem where_eq_spec_aux (cfg : Cfg) (t : Table) (N : Nat) (hok : t.OK N) (pos 
   obtain ⟨sel', ecomp, hidx, hselok⟩ := composeSel_spec t.sel N hok.sel selection hsel.inc
     (fun i hi => by have := (hsel.mem i).mp hi; simpa [Table.m] using this.2.1)
   have hok' : Table.OK { t with sel := sel' } N := ⟨hok.len, hok.cols, hselok⟩
-  refine ⟨{ t with sel := sel' }, ?_, ?_, rfl, rfl, rfl, hok'⟩
+  refine ⟨{ t with sel := sel' }, ?_, ?_, rfl, rfl, rfl, hok', selection, hsel.inc, fun i hi => ((hsel.mem i).mp hi).2.1, hidx⟩
   · simp only [Table.pwhere, hl, hlen, eloop, bind, Except.bind, hselection, ecomp, pure, Except.pure]
   · -- rows of the result
     have hm' : Table.m { t with sel := sel' } N = selection.length := by simp [Table.m, hidx]
@@ -2181,7 +2183,7 @@ theorem where_eq_spec' (cfg : Cfg) (t : Table) (pos : Option Op) (kws : List (Na
       simp only [hl, List.all_eq_true] at h4
       have hne : kws ≠ [] := by
         intro he; simp [he] at h2
-      obtain ⟨t', a1, a2, a3, a4, _, _⟩ := where_eq_spec_aux cfg t b.length (tableOKB_sound h1) pos kws hne lohis hl
+      obtain ⟨t', a1, a2, a3, a4, _, _, _⟩ := where_eq_spec_aux cfg t b.length (tableOKB_sound h1) pos kws hne lohis hl
         (fun kw hk => kwOKB_sound (h4 kw hk)) (noLeakB_sound h3) R rs hR hspec
       exact ⟨t', a1, a2, a3, a4⟩
 
@@ -2842,7 +2844,7 @@ theorem stage_data (t0 : Table) (N : Nat) (done : List Nat) (data : List (Nat ×
     (lohis : List (Nat × Nat)) (perm : List Nat) (col : Nat) (hcol : col ∉ done) (hok : IdxColOK t0 N col)
     (hs : StageInv (K0 t0) N done perm lohis) (hd : DataInv t0 N done data perm) :
     ∃ b, lookupCol data col = .ok b ∧ b = t0.base col ∧
-      sortSegments (fun i => b.getD i .missing) lohis perm = .ok (sortBlocks (cellAt b) perm lohis) ∧
+      sortSegments (cellAt b) lohis perm = .ok (sortBlocks (cellAt b) perm lohis) ∧
       DataInv t0 N (done ++ [col]) (setCol data col ((sortBlocks (cellAt b) perm lohis).map (cellAt b))) (sortBlocks (cellAt b) perm lohis) := by
   obtain ⟨b, hb, hbl⟩ := hok.stored
   have hbase : t0.base col = b := by simp [Table.base, hb]
@@ -2862,7 +2864,6 @@ theorem stage_data (t0 : Table) (N : Nat) (done : List Nat) (data : List (Nat ×
       obtain ⟨j, _, j2, rfl⟩ := (mem_slice_iff perm p.1 p.2 hb2.2.1 (by omega) w).mp hw
       have := hok.cmp _ _ (perm_getD_lt hs.isPerm i (by omega)) (perm_getD_lt hs.isPerm j (by omega))
       simpa [K0, hbase] using this)
-    show sortSegments (cellAt b) lohis perm = .ok (sortBlocks (cellAt b) perm lohis)
     simpa [sortBlocks] using this
   · obtain ⟨hs', _⟩ := stage_sort (K0 t0) N done perm lohis hs (cellAt b)
     obtain ⟨l1, _, _⟩ := sortBlocks_slices (cellAt b) perm lohis N hs.segs hN
@@ -2891,6 +2892,757 @@ theorem stage_data (t0 : Table) (N : Nat) (done : List Nat) (data : List (Nat ×
       rw [lookupCol_setCol, if_neg h2, hd.rest c h1]
     · rw [setCol_keys, hd.keys]
     · exact setCol_lens data col _ N hd.lens (by simp [l1])
+
+
+/-- rows in their final order are in non-decreasing lexicographic order of the index columns -/
+def LexSortedK (K : Nat → Nat → Key) (N : Nat) (cols : List Nat) (perm : List Nat) : Prop :=
+  ∀ i j, i < j → j < N → lexLtK K cols (perm.getD j 0) (perm.getD i 0) = false
+
+theorem final_sorted (K : Nat → Nat → Key) (N : Nat) (done : List Nat) (perm : List Nat) (lohis : List (Nat × Nat))
+    (kf : Nat → Cell) (col : Nat) (hkf : ∀ x, (kf x).key = K col x)
+    (hs : StageInv K N done perm lohis)
+    (hsorted : ∀ p ∈ lohis, ∀ i j, p.1 ≤ i → i < j → j < p.2 → ltBy kf (perm.getD j 0) (perm.getD i 0) = false) :
+    LexSortedK K N (done ++ [col]) perm := by
+  intro i j hij hj
+  obtain ⟨p, hp, p1, p2⟩ := hs.segs.cover i (Nat.zero_le _) (by omega)
+  by_cases hjp : j < p.2
+  · have hag : ∀ d ∈ done, K d (perm.getD j 0) = K d (perm.getD i 0) :=
+      fun d hd => hs.agree d hd p hp j i (by omega) hjp p1 p2
+    rw [lexLtK_agree K done _ _ hag [col]]
+    have := hsorted p hp i j p1 hij hjp
+    simp only [ltBy, hkf] at this
+    simp only [lexLtK, this, Bool.false_eq_true, if_false]
+    split <;> rfl
+  · have := hs.strict p hp i j p2 (by omega) hj
+    exact lexLtK_asymm K _ _ _ (lexLtK_append_of_lt K done [col] _ _ this)
+
+theorem indexLoop_spec (cfg : Cfg) (t0 : Table) (N : Nat) (last : Nat) :
+    ∀ (cols : List Nat) (done : List Nat) (data : List (Nat × List Cell)) (lohis : List (Nat × Nat)) (perm : List Nat),
+    cols ≠ [] → cols.getLast? = some last → (done ++ cols).Nodup → (∀ d ∈ cols, IdxColOK t0 N d) →
+    StageInv (K0 t0) N done perm lohis → DataInv t0 N done data perm →
+    ∃ data' perm', indexLoop cfg last cols data lohis perm = .ok (data', perm') ∧ perm'.Perm (List.range N) ∧
+      DataInv t0 N (done ++ cols) data' perm' ∧ LexSortedK (K0 t0) N (done ++ cols) perm'
+  | [], _, _, _, _, h, _, _, _, _, _ => absurd rfl h
+  | [col], done, data, lohis, perm, _, hlast, hnd, hok, hs, hd => by
+    have hl : last = col := by simpa using hlast.symm
+    subst hl
+    have hcol : last ∉ done := by
+      intro h
+      have := List.nodup_append.mp hnd
+      exact this.2.2 last h last (by simp) rfl
+    obtain ⟨b, hb, hbase, hsort, hd'⟩ := stage_data t0 N done data lohis perm last hcol (hok last (by simp)) hs hd
+    obtain ⟨hs', hsorted⟩ := stage_sort (K0 t0) N done perm lohis hs (cellAt b)
+    refine ⟨_, _, ?_, hs'.isPerm, hd', ?_⟩
+    · simp only [indexLoop, hb, hsort, ne_eq, not_true_eq_false, if_false]
+    · exact final_sorted (K0 t0) N done _ lohis (cellAt b) last (fun x => by simp [K0, hbase]) hs' hsorted
+  | col :: c2 :: rest, done, data, lohis, perm, _, hlast, hnd, hok, hs, hd => by
+    have hnd' := List.nodup_append.mp hnd
+    have hcol : col ∉ done := fun h => hnd'.2.2 col h col (by simp) rfl
+    have hne : col ≠ last := by
+      intro e
+      have hmem : last ∈ c2 :: rest := by
+        have : (c2 :: rest).getLast? = some last := by simpa [List.getLast?_cons_cons] using hlast
+        exact List.mem_of_getLast? this
+      have := (List.nodup_cons.mp hnd'.2.1).1
+      exact this (e ▸ hmem)
+    obtain ⟨b, hb, hbase, hsort, hd'⟩ := stage_data t0 N done data lohis perm col hcol (hok col (by simp)) hs hd
+    obtain ⟨hs', hsorted⟩ := stage_sort (K0 t0) N done perm lohis hs (cellAt b)
+    have hokc := hok col (by simp)
+    have hlen' := hs'.len
+    -- the runs of the permuted column inside the old segments
+    have hcellkey : ∀ i, i < N → (cellAt ((sortBlocks (cellAt b) perm lohis).map (cellAt b)) i).key
+        = K0 t0 col ((sortBlocks (cellAt b) perm lohis).getD i 0) := by
+      intro i hi
+      rw [cellAt_map_getD (cellAt b) _ i (by omega)]
+      simp [K0, hbase]
+    obtain ⟨nxt, hnxt, hsegs, hruns⟩ := subLohisAll_spec cfg _ _ (seq_shows_all ((sortBlocks (cellAt b) perm lohis).map (cellAt b)))
+      lohis 0 N hs.segs (by simp [hlen']) (by
+        intro p hp
+        have hb2 := hs.segs.bounds p hp
+        refine ⟨?_, ?_, ?_⟩
+        · intro i j a c e
+          rw [hcellkey i (by omega), hcellkey j (by omega)]
+          have := hsorted p hp i j a c e
+          simpa [ltBy, K0, hbase] using this
+        · intro i j a c e f
+          rw [hcellkey i (by omega), hcellkey j (by omega)]
+          exact hokc.cmp _ _ (perm_getD_lt hs'.isPerm i (by omega)) (perm_getD_lt hs'.isPerm j (by omega))
+        · intro i a c
+          rw [hcellkey i (by omega)]
+          exact hokc.nn _ (perm_getD_lt hs'.isPerm i (by omega)))
+    have hs'' := stage_refine (K0 t0) N done _ lohis hs' col (cellAt b) (fun x => by simp [K0, hbase]) nxt hsegs hruns
+    obtain ⟨data', perm', e, hp, hdd, hss⟩ := indexLoop_spec cfg t0 N last (c2 :: rest) (done ++ [col]) _ nxt _
+      (by simp) (by simpa [List.getLast?_cons_cons] using hlast) (by simpa [List.append_assoc] using hnd)
+      (fun d hdm => hok d (by simp at hdm ⊢; tauto)) hs'' hd'
+    refine ⟨data', perm', ?_, hp, by simpa [List.append_assoc] using hdd, by simpa [List.append_assoc] using hss⟩
+    rw [indexLoop]
+    simp only [hb, hsort, ne_eq, hne, not_false_eq_true, if_true, hnxt]
+    exact e
+
+
+/-! ## `Table.index` -/
+
+theorem lookupCol_permuteOthers (indx2 perm : List Nat) (data : List (Nat × List Cell)) (c : Nat) :
+    lookupCol (permuteOthers indx2 perm data) c =
+      match lookupCol data c with
+      | .ok b => .ok (if indx2.contains c then b else perm.map (cellAt b))
+      | .error e => .error e := by
+  have hf : (permuteOthers indx2 perm data).find? (fun p => p.1 == c) =
+      (data.find? (fun p => p.1 == c)).map (fun p => if indx2.contains p.1 then p else (p.1, perm.map (cellAt p.2))) := by
+    simp only [permuteOthers, List.find?_map]
+    congr 2
+    funext p
+    by_cases h : p.1 ∈ indx2 <;> simp [Function.comp, h]
+  simp only [lookupCol, hf]
+  cases hfd : data.find? (fun p => p.1 == c) with
+  | none => simp
+  | some p =>
+    have := List.find?_some hfd
+    simp only [beq_iff_eq] at this
+    subst this
+    by_cases h : p.1 ∈ indx2 <;> simp [h]
+
+theorem permuteOthers_keys (indx2 perm : List Nat) (data : List (Nat × List Cell)) :
+    (permuteOthers indx2 perm data).map (·.1) = data.map (·.1) := by
+  simp only [permuteOthers, List.map_map]
+  apply List.map_congr_left
+  intro p _
+  by_cases h : p.1 ∈ indx2 <;> simp [Function.comp, h]
+
+/-- what `Table.index` does to the stored lists (`perm`: where each row came from) -/
+theorem index_data_spec (cfg : Cfg) (t : Table) (N : Nat) (hok : t.OK N) (hsel : t.sel = .all) (indx : List Nat)
+    (hne : indx ≠ []) (hdata : t.data ≠ []) (hnd : (effIndex cfg t indx).Nodup) (hdiff : t.indexes ≠ effIndex cfg t indx)
+    (hcols : ∀ d ∈ effIndex cfg t indx, IdxColOK t N d) :
+    ∃ t' perm, t.index cfg indx = .ok t' ∧ perm.Perm (List.range N) ∧
+      t'.columns = t.columns ∧ t'.indexes = effIndex cfg t indx ∧ t'.sel = .all ∧ t'.OK N ∧
+      (∀ c b, lookupCol t.data c = .ok b → ∃ b', lookupCol t'.data c = .ok b' ∧ b'.length = N ∧
+        (∀ i, i < N → (cellAt b' i).key = (cellAt b (perm.getD i 0)).key) ∧
+        (c ∉ effIndex cfg t indx → b' = perm.map (cellAt b))) ∧
+      LexSortedK (K0 t) N (effIndex cfg t indx) perm := by
+  have hlen : t.len = .ok N := by
+    have := hok.len_eq hdata
+    simpa [Table.m, hsel, Sel.idx] using this
+  have h1 : indx.isEmpty = false := by cases indx <;> simp_all
+  have h2 : t.data.isEmpty = false := by cases hd : t.data <;> simp_all
+  generalize hix : effIndex cfg t indx = indx2 at hnd hdiff hcols ⊢
+  -- the loop (or nothing when no name is a column)
+  have hloop : ∃ data perm, indexRun cfg indx2 t.data N = .ok (data, perm) ∧ perm.Perm (List.range N) ∧
+      DataInv t N indx2 data perm ∧ LexSortedK (K0 t) N indx2 perm := by
+    have hs0 : StageInv (K0 t) N [] (List.range N) [(0, N)] :=
+      ⟨List.Perm.refl _, Segs.cons (Nat.zero_le _) (Segs.nil N), by simp, by
+        intro p hp i j a b c
+        simp at hp; subst hp; simp at b; omega⟩
+    have hd0 : DataInv t N [] t.data (List.range N) := ⟨by simp, fun _ _ => rfl, rfl, hok.len⟩
+    cases hl : indx2.getLast? with
+    | none =>
+      have : indx2 = [] := by simpa using hl
+      subst this
+      exact ⟨t.data, List.range N, by simp [indexRun], List.Perm.refl _, hd0, fun i j _ _ => rfl⟩
+    | some last =>
+      have hne2 : indx2 ≠ [] := by rintro rfl; simp at hl
+      obtain ⟨data, perm, e, hp, hdd, hss⟩ := indexLoop_spec cfg t N last indx2 [] t.data [(0, N)] (List.range N) hne2 hl
+        (by simpa using hnd) hcols hs0 hd0
+      exact ⟨data, perm, by simp only [indexRun, hl]; exact e, hp, by simpa using hdd, by simpa using hss⟩
+  obtain ⟨data, perm, eloop, hperm, hdi, hsorted⟩ := hloop
+  have hpl : perm.length = N := by rw [hperm.length_eq]; simp
+  refine ⟨{ t with data := permuteOthers indx2 perm data, indexes := indx2 }, perm, ?_, hperm, rfl, rfl, hsel, ?_, ?_, hsorted⟩
+  · simp only [Table.index, h1, h2, hix, hdiff, hlen, Bool.false_eq_true, if_false]
+    rw [eloop]
+  · refine ⟨?_, ?_, by rw [hsel]; exact hsel ▸ hok.sel⟩
+    · intro p hp
+      simp only [permuteOthers, List.mem_map] at hp
+      obtain ⟨q, hq, rfl⟩ := hp
+      by_cases hc : q.1 ∈ indx2
+      · simp [hc, hdi.lens q hq]
+      · simp [hc, hpl]
+    · intro c hc
+      obtain ⟨b, hb⟩ := hok.cols c hc
+      simp only [lookupCol_permuteOthers]
+      by_cases hci : c ∈ indx2
+      · obtain ⟨col, h1', _, _⟩ := hdi.doneCols c hci
+        exact ⟨_, by rw [h1']⟩
+      · rw [hdi.rest c hci, hb]; exact ⟨_, rfl⟩
+  · intro c b hb
+    simp only [lookupCol_permuteOthers]
+    have hbl : b.length = N := hok.len _ (lookupCol_mem hb)
+    have hbase : t.base c = b := by simp [Table.base, hb]
+    by_cases hci : c ∈ indx2
+    · obtain ⟨col, h1', h2', h3'⟩ := hdi.doneCols c hci
+      have hcon : indx2.contains c = true := by simpa using hci
+      refine ⟨col, by rw [h1']; simp [hci], h2', ?_, fun h => absurd hci h⟩
+      intro i hi
+      rw [h3' i hi]; simp [K0, hbase]
+    · have hcon : indx2.contains c = false := by simpa using hci
+      refine ⟨perm.map (cellAt b), by rw [hdi.rest c hci, hb]; simp [hci], by simp [hpl], ?_, fun _ => rfl⟩
+      intro i hi
+      rw [cellAt_map_getD (cellAt b) perm i (by omega)]
+
+
+/-! ### `Table.index` in terms of rows -/
+
+theorem vcol_all (t : Table) (hsel : t.sel = .all) (c : Nat) : t.vcol c = t.base c := by
+  simp [Table.vcol, viewOf, hsel, Sel.idx, map_cellAt_range]
+
+theorem rowAt_getD (t : Table) (i d : Nat) (hd : d ∈ t.columns) :
+    (t.rowAt i).getD (t.columns.idxOf d) .missing = cellAt (t.vcol d) i := by
+  have hlt : t.columns.idxOf d < t.columns.length := List.idxOf_lt_length_iff.mpr hd
+  simp only [Table.rowAt, List.getD]
+  rw [List.getElem?_eq_getElem (by simpa using hlt)]
+  simp [List.getElem_idxOf hlt]
+
+theorem lexLt_rows (t' : Table) (K : Nat → Nat → Key) (perm : List Nat) (i j : Nat)
+    (hK : ∀ d ∈ t'.indexes, d ∈ t'.columns ∧ (cellAt (t'.vcol d) i).key = K d (perm.getD i 0) ∧
+      (cellAt (t'.vcol d) j).key = K d (perm.getD j 0)) :
+    ∀ (ds : List Nat), (∀ d ∈ ds, d ∈ t'.indexes) →
+    lexLt (idxPositions t'.columns ds) (t'.rowAt j) (t'.rowAt i) = lexLtK K ds (perm.getD j 0) (perm.getD i 0)
+  | [], _ => rfl
+  | d :: ds, h => by
+    obtain ⟨h1, h2, h3⟩ := hK d (h d (by simp))
+    simp only [idxPositions, List.map_cons, lexLt, lexLtK, rowAt_getD t' _ d h1, h2, h3]
+    rw [show List.map (fun d => List.idxOf d t'.columns) ds = idxPositions t'.columns ds from rfl,
+      lexLt_rows t' K perm i j hK ds (fun d' hd' => h d' (by simp [hd']))]
+
+/-- **index** = a permutation of the rows (cells kept up to `==` in the index columns, exactly
+elsewhere) that puts them in non-decreasing lexicographic order of the index columns -/
+theorem index_rows_spec (cfg : Cfg) (t : Table) (N : Nat) (hok : t.OK N) (hsel : t.sel = .all) (indx : List Nat)
+    (hne : indx ≠ []) (hcne : t.columns ≠ []) (hnd : (effIndex cfg t indx).Nodup) (hdiff : t.indexes ≠ effIndex cfg t indx)
+    (hcols : ∀ d ∈ effIndex cfg t indx, d ∈ t.columns ∧ IdxColOK t N d) :
+    ∃ (t' : Table) (perm : List Nat) (R R' : List (List Cell)), t.index cfg indx = .ok t' ∧ t.rows = .ok R ∧ t'.rows = .ok R' ∧
+      t'.columns = t.columns ∧ t'.indexes = effIndex cfg t indx ∧
+      R.length = N ∧ R'.length = N ∧ perm.Perm (List.range N) ∧
+      (∀ i, i < N → (R'.getD i []).map Cell.key = (R.getD (perm.getD i 0) []).map Cell.key) ∧
+      (∀ i, i < N → ∀ k, k < t.columns.length → t.columns.getD k 0 ∉ effIndex cfg t indx →
+        (R'.getD i []).getD k .missing = (R.getD (perm.getD i 0) []).getD k .missing) ∧
+      (∀ i j, i < j → j < N →
+        lexLt (idxPositions t.columns (effIndex cfg t indx)) (R'.getD j []) (R'.getD i []) = false) := by
+  have hdata : t.data ≠ [] := by
+    obtain ⟨c, hc⟩ := List.exists_mem_of_ne_nil _ hcne
+    obtain ⟨b, hb⟩ := hok.cols c hc
+    exact List.ne_nil_of_mem (lookupCol_mem hb)
+  obtain ⟨t', perm, e, hperm, hcolumns, hidx, hsel', hok', hcolsp, hsorted⟩ :=
+    index_data_spec cfg t N hok hsel indx hne hdata hnd hdiff (fun d hd => (hcols d hd).2)
+  have hm : t.m N = N := by simp [Table.m, hsel, Sel.idx]
+  have hm' : t'.m N = N := by simp [Table.m, hsel', Sel.idx]
+  have hR := hok.rows_eq hcne
+  have hR' := hok'.rows_eq (by rw [hcolumns]; exact hcne)
+  rw [hm] at hR
+  rw [hm'] at hR'
+  have hpl : perm.length = N := by rw [hperm.length_eq]; simp
+  have getR : ∀ i, i < N → ((List.range N).map t.rowAt).getD i [] = t.rowAt i := by
+    intro i hi; simp [List.getD, hi]
+  have getR' : ∀ i, i < N → ((List.range N).map t'.rowAt).getD i [] = t'.rowAt i := by
+    intro i hi; simp [List.getD, hi]
+  -- cells of the new table in terms of the old one
+  have hcell : ∀ c ∈ t.columns, ∀ i, i < N →
+      (cellAt (t'.vcol c) i).key = (cellAt (t.vcol c) (perm.getD i 0)).key ∧
+      (c ∉ effIndex cfg t indx → cellAt (t'.vcol c) i = cellAt (t.vcol c) (perm.getD i 0)) := by
+    intro c hc i hi
+    obtain ⟨b, hb⟩ := hok.cols c hc
+    obtain ⟨b', hb', _, hk, hex⟩ := hcolsp c b hb
+    have e1 : t.base c = b := by simp [Table.base, hb]
+    have e2 : t'.base c = b' := by simp [Table.base, hb']
+    rw [vcol_all t hsel, vcol_all t' hsel', e1, e2]
+    refine ⟨hk i hi, fun hni => ?_⟩
+    rw [hex hni, cellAt_map_getD (cellAt b) perm i (by omega)]
+  refine ⟨t', perm, _, _, e, hR, hR', hcolumns, hidx, by simp, by simp, hperm, ?_, ?_, ?_⟩
+  · intro i hi
+    rw [getR' i hi, getR _ (perm_getD_lt hperm i hi)]
+    simp only [Table.rowAt, List.map_map, hcolumns]
+    apply List.map_congr_left
+    intro c hc
+    exact (hcell c hc i hi).1
+  · intro i hi k hk hnot
+    rw [getR' i hi, getR _ (perm_getD_lt hperm i hi)]
+    have hc : t.columns.getD k 0 ∈ t.columns := by
+      simp only [List.getD, List.getElem?_eq_getElem hk, Option.getD_some]; exact List.getElem_mem hk
+    simp only [Table.rowAt, hcolumns, List.getD, List.getElem?_map, List.getElem?_eq_getElem hk, Option.map_some, Option.getD_some]
+    have := (hcell _ hc i hi).2 hnot
+    simpa [List.getD, List.getElem?_eq_getElem hk] using this
+  · intro i j hij hj
+    rw [getR' i (by omega), getR' j hj, ← hcolumns, ← hidx]
+    rw [lexLt_rows t' (K0 t) perm i j (by
+      intro d hd
+      rw [hidx] at hd
+      have hdc := (hcols d hd).1
+      refine ⟨by rw [hcolumns]; exact hdc, ?_, ?_⟩
+      · rw [(hcell d hdc i (by omega)).1, vcol_all t hsel]; rfl
+      · rw [(hcell d hdc j hj).1, vcol_all t hsel]; rfl) t'.indexes (fun d hd => hd)]
+    rw [hidx]
+    exact hsorted i j hij hj
+
+
+theorem index_spec' (cfg : Cfg) (t : Table) (indx : List Nat) (hwf : indexWF cfg t indx = true) :
+    ∃ (t' : Table) (perm : List Nat) (R R' : List (List Cell)), t.index cfg indx = .ok t' ∧ t.rows = .ok R ∧ t'.rows = .ok R' ∧
+      t'.columns = t.columns ∧ t'.indexes = effIndex cfg t indx ∧
+      R'.length = R.length ∧ perm.Perm (List.range R.length) ∧
+      (∀ i, i < R.length → (R'.getD i []).map Cell.key = (R.getD (perm.getD i 0) []).map Cell.key) ∧
+      (∀ i, i < R.length → ∀ k, k < t.columns.length → t.columns.getD k 0 ∉ effIndex cfg t indx →
+        (R'.getD i []).getD k .missing = (R.getD (perm.getD i 0) []).getD k .missing) ∧
+      (∀ i j, i < j → j < R.length →
+        lexLt (idxPositions t.columns (effIndex cfg t indx)) (R'.getD j []) (R'.getD i []) = false) := by
+  unfold indexWF at hwf
+  split at hwf
+  · simp at hwf
+  · rename_i c0 b rest hd
+    simp only [Bool.and_eq_true, decide_eq_true_eq, Bool.not_eq_true', List.all_eq_true] at hwf
+    obtain ⟨⟨⟨⟨⟨⟨h1, h2⟩, h3⟩, h4⟩, h5⟩, h6⟩, h7⟩ := hwf
+    have hok := tableOKB_sound h2
+    have hne : indx ≠ [] := by intro e; simp [e] at h3
+    have hcne : t.columns ≠ [] := by intro e; simp [e] at h4
+    obtain ⟨t', perm, R, R', a1, a2, a3, a4, a5, a6, a7, a8, a9, a10, a11⟩ :=
+      index_rows_spec cfg t b.length hok h1 indx hne hcne h5 h6 (by
+        intro d hd'
+        obtain ⟨⟨c1, c2⟩, c3⟩ := h7 d hd'
+        obtain ⟨bd, hbd⟩ := (isOk_iff _).mp c2
+        refine ⟨by simpa using c1, ⟨⟨bd, hbd, hok.len _ (lookupCol_mem hbd)⟩, ?_, ?_⟩⟩
+        · intro x y hx hy
+          have := (allIn_iff _ _ _).mp c3 x (Nat.zero_le _) hx
+          simp only [Bool.and_eq_true] at this
+          exact (allIn_iff _ _ _).mp this.2 y (Nat.zero_le _) hy
+        · intro x hx
+          have := (allIn_iff _ _ _).mp c3 x (Nat.zero_le _) hx
+          simp only [Bool.and_eq_true] at this
+          simpa [K0] using this.1)
+    refine ⟨t', perm, R, R', a1, a2, a3, a4, a5, by omega, by rw [a6]; exact a8, ?_, ?_, ?_⟩
+    · rw [a6]; exact a9
+    · rw [a6]; exact a10
+    · rw [a6]; exact a11
+
+
+/-! ## `_calc_lohis` on a table whose rows are in index order -/
+
+/-- key of the `x`-th row the table shows, in column `d` -/
+def Kt (t : Table) (d x : Nat) : Key := (cellAt (t.vcol d) x).key
+
+/-- the rows the table shows are in non-decreasing lexicographic order of its index columns, and the
+cells of every index column are stored, mutually comparable and not `None` -/
+structure Indexed (t : Table) (N : Nat) : Prop where
+  nodup : t.indexes.Nodup
+  stored : ∀ d ∈ t.indexes, ∃ b, lookupCol t.data d = .ok b
+  sorted : ∀ i j, i < j → j < t.m N → lexLtK (Kt t) t.indexes j i = false
+  cmp : ∀ d ∈ t.indexes, ∀ x y, x < t.m N → y < t.m N → (Kt t d x).comparable (Kt t d y) = true
+  nn : ∀ d ∈ t.indexes, ∀ x, x < t.m N → Kt t d x ≠ .none
+
+theorem getD_range (m i : Nat) (h : i < m) : (List.range m).getD i 0 = i := by
+  simp [List.getD, h]
+
+/-- the levels `_calc_lohis` builds: level `j` satisfies the stage invariant for the first `j` index
+columns; from the second level on the segments are not empty -/
+theorem calcLohisAux_spec (cfg : Cfg) (t : Table) (N : Nat) (hok : t.OK N) (hix : Indexed t N) :
+    ∀ (todo done : List Nat) (cur : List (Nat × Nat)), done ++ todo = t.indexes → todo ≠ [] →
+    StageInv (Kt t) (t.m N) done (List.range (t.m N)) cur →
+    ∃ levels, calcLohisAux cfg t todo cur = .ok levels ∧ levels.length = todo.length ∧
+      (∀ j (hj : j < levels.length), StageInv (Kt t) (t.m N) (done ++ todo.take j) (List.range (t.m N)) (levels[j])) ∧
+      (∀ j (hj : j < levels.length), 0 < j → ∀ p ∈ levels[j], p.1 < p.2) ∧ levels.head? = some cur
+  | [], _, _, _, h, _ => absurd rfl h
+  | [k], done, cur, _, _, hs => by
+    refine ⟨[cur], rfl, rfl, ?_, ?_, rfl⟩
+    · intro j hj
+      simp at hj; subst hj
+      simpa using hs
+    · intro j hj hpos
+      simp at hj; omega
+  | k :: k2 :: rest, done, cur, hsplit, _, hs => by
+    have hk : k ∈ t.indexes := by rw [← hsplit]; simp
+    obtain ⟨b, hb⟩ := hix.stored k hk
+    obtain ⟨ecol, hshows⟩ := hok.col_shows hb
+    have hlen : (t.vcol k).length = t.m N := hok.vcol_len hb
+    have hxs : (List.range (t.m N)).map (cellAt (t.vcol k)) = t.vcol k := by
+      rw [← hlen]; exact map_cellAt_range _
+    obtain ⟨nxt, e, hsegs, hruns⟩ := subLohisAll_spec cfg _ (t.vcol k) hshows cur 0 (t.m N) hs.segs (by omega) (by
+      intro p hp
+      have hb2 := hs.segs.bounds p hp
+      refine ⟨?_, ?_, ?_⟩
+      · intro i j a c e'
+        -- rows i < j of one segment agree on `done`, so the lexicographic order decides on column k
+        have hag : ∀ d ∈ done, Kt t d ((List.range (t.m N)).getD j 0) = Kt t d ((List.range (t.m N)).getD i 0) :=
+          fun d hd => hs.agree d hd p hp j i (by omega) e' a (by omega)
+        have hsrt := hix.sorted i j c (by omega)
+        rw [← hsplit] at hsrt
+        rw [getD_range _ i (by omega), getD_range _ j (by omega)] at hag
+        rw [lexLtK_agree (Kt t) done j i hag] at hsrt
+        simp only [lexLtK] at hsrt
+        by_contra hcon
+        simp only [Bool.not_eq_false] at hcon
+        have : (Kt t k j).lt (Kt t k i) = true := hcon
+        simp [this] at hsrt
+      · intro i j a c e' f
+        exact hix.cmp k hk i j (by omega) (by omega)
+      · intro i a c
+        exact hix.nn k hk i (by omega))
+    have hs' := stage_refine (Kt t) (t.m N) done _ cur hs k (cellAt (t.vcol k)) (fun x => rfl) nxt hsegs (by rw [hxs]; exact hruns)
+    obtain ⟨more, e', hl, hlv, hnev, hhead⟩ := calcLohisAux_spec cfg t N hok hix (k2 :: rest) (done ++ [k]) nxt
+      (by rw [← hsplit]; simp) (by simp) hs'
+    refine ⟨cur :: more, by simp only [calcLohisAux, ecol, e, e'], by simp [hl], ?_, ?_, rfl⟩
+    · intro j hj
+      cases j with
+      | zero => simpa using hs
+      | succ j =>
+        have := hlv j (by simpa using hj)
+        simpa [List.append_assoc] using this
+    · intro j hj hpos
+      cases j with
+      | zero => omega
+      | succ j =>
+        simp only [List.getElem_cons_succ]
+        cases j with
+        | zero =>
+          -- the level right after `cur`: the runs found by `_sub_lohis`
+          have hm0 : more[0]'(by simp at hj; omega) = nxt := by
+            cases more with
+            | nil => simp at hl
+            | cons x xs => simpa using hhead
+          intro p hp
+          rw [hm0] at hp
+          obtain ⟨_, _, _, hrun⟩ := hruns p hp
+          exact hrun.ne
+        | succ j => exact hnev (j + 1) (by simpa using hj) (by omega)
+
+/-! ## lohis of an indexed table, `groupby` -/
+
+theorem dictGet_zip {β} (idx : List Nat) (vals : List β) (hnd : idx.Nodup) (hl : vals.length = idx.length)
+    (j : Nat) (hj : j < idx.length) : dictGet (idx.zip vals) idx[j] = .ok (vals[j]'(by omega)) := by
+  unfold dictGet
+  have hmem : (idx[j], vals[j]'(by omega)) ∈ (idx.zip vals).reverse := by
+    rw [List.mem_reverse]
+    have hz : j < (idx.zip vals).length := by simp [hl]; omega
+    have := List.getElem_mem hz
+    simpa [List.getElem_zip] using this
+  cases hf : (idx.zip vals).reverse.find? (fun p => p.1 == idx[j]) with
+  | none =>
+    have := List.find?_eq_none.mp hf _ hmem
+    simp at this
+  | some p =>
+    have h1 := List.find?_some hf
+    have h2 := List.mem_of_find?_eq_some hf
+    rw [List.mem_reverse] at h2
+    obtain ⟨i, hi, rfl⟩ := List.getElem_of_mem h2
+    simp only [List.getElem_zip, beq_iff_eq] at h1 ⊢
+    have hi' : i < idx.length := by simp [hl] at hi; omega
+    have : i = j := (hnd.getElem_inj_iff).mp h1
+    subst this
+    rfl
+
+/-- **lohis are the runs of the index prefix.**  On a table whose rows are in index order,
+`_calc_lohis` succeeds and the segments it records for the `j`-th index column are consecutive, cover
+all rows, hold rows that agree on the first `j` index columns, and rows of different segments are
+strictly ordered by them. -/
+theorem lohis_correct' (cfg : Cfg) (t : Table) (N : Nat) (hok : t.OK N) (hix : Indexed t N) (hne : t.indexes ≠ []) :
+    ∃ lohis, t.calcLohis cfg = .ok lohis ∧
+      ∀ j (hj : j < t.indexes.length), ∃ segs, dictGet lohis t.indexes[j] = .ok segs ∧
+        StageInv (Kt t) (t.m N) (t.indexes.take j) (List.range (t.m N)) segs ∧ (0 < j → ∀ p ∈ segs, p.1 < p.2) ∧
+        (j = 0 → segs = [(0, t.m N)]) := by
+  obtain ⟨k0, hk0⟩ := List.exists_mem_of_ne_nil _ hne
+  obtain ⟨b, hb⟩ := hix.stored k0 hk0
+  have hdne : t.data ≠ [] := List.ne_nil_of_mem (lookupCol_mem hb)
+  have hlen := hok.len_eq hdne
+  have hs0 : StageInv (Kt t) (t.m N) [] (List.range (t.m N)) [(0, t.m N)] :=
+    ⟨List.Perm.refl _, Segs.cons (Nat.zero_le _) (Segs.nil _), by simp, by
+      intro p hp i j a b c
+      simp at hp; subst hp; simp at b; omega⟩
+  obtain ⟨levels, e, hl, hlv, hnev, hhead⟩ := calcLohisAux_spec cfg t N hok hix t.indexes [] [(0, t.m N)] (by simp) hne hs0
+  refine ⟨t.indexes.zip levels, ?_, ?_⟩
+  · unfold Table.calcLohis
+    cases hidx : t.indexes with
+    | nil => exact absurd hidx hne
+    | cons k rest =>
+      simp only [hlen, bind, Except.bind, pure, Except.pure]
+      rw [hidx] at e
+      simp only [e]
+  · intro j hj
+    refine ⟨levels[j]'(by omega), dictGet_zip t.indexes levels hix.nodup hl j hj, ?_, hnev j (by omega), ?_⟩
+    · simpa using hlv j (by omega)
+    · intro hj0
+      subst hj0
+      cases levels with
+      | nil => simp at hl; omega
+      | cons x xs => simpa using hhead
+
+
+theorem mapM_get_shows (t : Table) (i : Nat) {ds : List Nat} {seqs : List Seq}
+    (h : List.Forall₂ (fun d (s : Seq) => s.Shows (t.vcol d)) ds seqs) (hlt : ∀ d ∈ ds, i < (t.vcol d).length) :
+    seqs.mapM (fun s => s.get i) = .ok (ds.map (fun d => cellAt (t.vcol d) i)) := by
+  induction h with
+  | nil => rfl
+  | @cons d s ds seqs hsh _ ih =>
+    rw [List.mapM_cons, hsh.get i (hlt d (by simp)), ih (fun d' hd' => hlt d' (by simp [hd']))]
+    rfl
+
+/-- rows of `groupby(level, 'count')`: one group per segment of the `level`-th index column -/
+theorem groupby_count_spec' (cfg : Cfg) (t : Table) (N : Nat) (hok : t.OK N) (hix : Indexed t N)
+    (level : Nat) (hlev : level < t.indexes.length) :
+    ∃ segs, StageInv (Kt t) (t.m N) (t.indexes.take level) (List.range (t.m N)) segs ∧
+      (0 < level → ∀ p ∈ segs, p.1 < p.2) ∧
+      t.groupby cfg level .count = .ok (segs.map (fun p =>
+        GroupOut.cnt ((t.indexes.take level).map (fun d => cellAt (t.vcol d) p.1)) (p.2 - p.1))) := by
+  have hne : t.indexes ≠ [] := by intro e; simp [e] at hlev
+  obtain ⟨lohis, el, hlo⟩ := lohis_correct' cfg t N hok hix hne
+  obtain ⟨segs, eseg, hs, hnonempty, _⟩ := hlo level hlev
+  refine ⟨segs, hs, hnonempty, ?_⟩
+  -- the group columns
+  have hgrp : ∀ (ds : List Nat), (∀ d ∈ ds, d ∈ t.indexes) →
+      ∃ seqs, ds.mapM t.col = .ok seqs ∧ List.Forall₂ (fun d (s : Seq) => s.Shows (t.vcol d)) ds seqs := by
+    intro ds
+    induction ds with
+    | nil => intro _; exact ⟨[], rfl, List.Forall₂.nil⟩
+    | cons d rest ih =>
+      intro h
+      obtain ⟨b, hb⟩ := hix.stored d (h d (by simp))
+      obtain ⟨e1, e2⟩ := hok.col_shows hb
+      obtain ⟨seqs, e3, hf⟩ := ih (fun d' hd' => h d' (by simp [hd']))
+      exact ⟨_ :: seqs, by rw [List.mapM_cons, e1, e3]; rfl, List.Forall₂.cons e2 hf⟩
+  obtain ⟨grpCols, egrp, hfg⟩ := hgrp (t.indexes.take level) (fun d hd => List.mem_of_mem_take hd)
+  have hone : ∀ p ∈ segs, groupOne .count grpCols [] p =
+      .ok (GroupOut.cnt ((t.indexes.take level).map (fun d => cellAt (t.vcol d) p.1)) (p.2 - p.1)) := by
+    intro p hp
+    have hkeys : grpCols.mapM (fun s => s.get p.1) = .ok ((t.indexes.take level).map (fun d => cellAt (t.vcol d) p.1)) := by
+      by_cases hl0 : level = 0
+      · subst hl0
+        simp at hfg
+        subst hfg
+        rfl
+      · have hp1 : p.1 < t.m N := by
+          have := hnonempty (by omega) p hp
+          have := (hs.segs.bounds p hp).2.2
+          omega
+        apply mapM_get_shows t p.1 hfg
+        intro d hd
+        obtain ⟨b, hb⟩ := hix.stored d (List.mem_of_mem_take hd)
+        rw [hok.vcol_len hb]; exact hp1
+    simp only [groupOne, hkeys]
+  have hmap : ∀ (l : List (Nat × Nat)), (∀ p ∈ l, p ∈ segs) → l.mapM (groupOne .count grpCols []) =
+      .ok (l.map (fun p => GroupOut.cnt ((t.indexes.take level).map (fun d => cellAt (t.vcol d) p.1)) (p.2 - p.1))) := by
+    intro l
+    induction l with
+    | nil => intro _; rfl
+    | cons p rest ih =>
+      intro h
+      rw [List.mapM_cons, hone p (h p (by simp)), ih (fun q hq => h q (by simp [hq]))]
+      rfl
+  have hix2 : optGet t.indexes[level]? = .ok t.indexes[level] := by
+    simp [optGet, List.getElem?_eq_getElem hlev]
+  simp only [Table.groupby, el, egrp, hix2, eseg, selectCols]
+  exact hmap segs (fun p hp => hp)
+
+
+/-! ## "in index order" is established by `index` and kept by `where` -/
+
+theorem lexLtK_congr (K K' : Nat → Nat → Key) : ∀ (ds : List Nat) (x y x' y' : Nat),
+    (∀ d ∈ ds, K d x = K' d x' ∧ K d y = K' d y') → lexLtK K ds x y = lexLtK K' ds x' y'
+  | [], _, _, _, _, _ => rfl
+  | d :: ds, x, y, x', y', h => by
+    obtain ⟨h1, h2⟩ := h d (by simp)
+    simp only [lexLtK, h1, h2]
+    rw [lexLtK_congr K K' ds x y x' y' (fun d' hd' => h d' (by simp [hd']))]
+
+/-- a view through an increasing selection of a table in index order is in index order -/
+theorem indexed_view (t : Table) (N : Nat) (hok : t.OK N) (hix : Indexed t N) (sel' : Sel) (selection : List Nat)
+    (hinc : StrictInc selection) (hlt : ∀ i ∈ selection, i < t.m N)
+    (hidx : sel'.idx N = selection.map (fun i => (t.sel.idx N).getD i 0)) :
+    Indexed { t with sel := sel' } N := by
+  have hm : Table.m { t with sel := sel' } N = selection.length := by simp [Table.m, hidx]
+  have hK : ∀ d ∈ t.indexes, ∀ k, k < selection.length →
+      Kt { t with sel := sel' } d k = Kt t d (selection.getD k 0) := by
+    intro d hd k hk
+    obtain ⟨b, hb⟩ := hix.stored d hd
+    obtain ⟨e, l⟩ := hok.base_len hb
+    have e' : Table.base { t with sel := sel' } d = b := by simp [Table.base, hb]
+    have hsk : selection.getD k 0 < t.m N := by
+      simp only [List.getD, List.getElem?_eq_getElem hk, Option.getD_some]
+      exact hlt _ (List.getElem_mem hk)
+    simp only [Kt, Table.vcol, viewOf, e, e', l, hidx]
+    rw [cellAt_map _ _ k (by simpa using hk), cellAt_map _ _ _ hsk]
+    simp [List.getD, List.getElem?_eq_getElem hk, List.getElem?_eq_getElem (show selection[k] < (t.sel.idx N).length from by
+      have := hlt _ (List.getElem_mem hk); simpa [Table.m] using this)]
+  have hget : ∀ k, k < selection.length → selection.getD k 0 < t.m N := by
+    intro k hk
+    simp only [List.getD, List.getElem?_eq_getElem hk, Option.getD_some]
+    exact hlt _ (List.getElem_mem hk)
+  refine ⟨hix.nodup, hix.stored, ?_, ?_, ?_⟩
+  · intro i j hij hj
+    rw [hm] at hj
+    show lexLtK (Kt { t with sel := sel' }) t.indexes j i = false
+    rw [lexLtK_congr _ (Kt t) t.indexes j i (selection.getD j 0) (selection.getD i 0)
+      (fun d hd => ⟨hK d hd j hj, hK d hd i (by omega)⟩)]
+    apply hix.sorted _ _ _ (hget j hj)
+    unfold StrictInc at hinc
+    rw [List.pairwise_iff_getElem] at hinc
+    have := hinc i j (by omega) hj hij
+    simpa [List.getD, List.getElem?_eq_getElem hj, List.getElem?_eq_getElem (show i < selection.length by omega)] using this
+  · intro d hd x y hx hy
+    rw [hm] at hx hy
+    rw [hK d hd x hx, hK d hd y hy]
+    exact hix.cmp d hd _ _ (hget x hx) (hget y hy)
+  · intro d hd x hx
+    rw [hm] at hx
+    rw [hK d hd x hx]
+    exact hix.nn d hd _ (hget x hx)
+
+/-- the table `index` returns is in index order -/
+theorem index_indexed (cfg : Cfg) (t : Table) (N : Nat) (hok : t.OK N) (hsel : t.sel = .all) (indx : List Nat)
+    (hne : indx ≠ []) (hdata : t.data ≠ []) (hnd : (effIndex cfg t indx).Nodup) (hdiff : t.indexes ≠ effIndex cfg t indx)
+    (hcols : ∀ d ∈ effIndex cfg t indx, IdxColOK t N d) :
+    ∃ t', t.index cfg indx = .ok t' ∧ t'.OK N ∧ Indexed t' N := by
+  obtain ⟨t', perm, e, hperm, hcolumns, hidx, hsel', hok', hcolsp, hsorted⟩ :=
+    index_data_spec cfg t N hok hsel indx hne hdata hnd hdiff hcols
+  have hm' : t'.m N = N := by simp [Table.m, hsel', Sel.idx]
+  have hK : ∀ d ∈ effIndex cfg t indx, ∀ i, i < N → Kt t' d i = K0 t d (perm.getD i 0) := by
+    intro d hd i hi
+    obtain ⟨b, hb, _⟩ := (hcols d hd).stored
+    obtain ⟨b', hb', _, hk, _⟩ := hcolsp d b hb
+    have e1 : t.base d = b := by simp [Table.base, hb]
+    have e2 : t'.base d = b' := by simp [Table.base, hb']
+    simp only [Kt, K0, vcol_all t' hsel', e1, e2]
+    exact hk i hi
+  refine ⟨t', e, hok', ⟨by rw [hidx]; exact hnd, ?_, ?_, ?_, ?_⟩⟩
+  · intro d hd
+    rw [hidx] at hd
+    obtain ⟨b, hb, _⟩ := (hcols d hd).stored
+    obtain ⟨b', hb', _⟩ := hcolsp d b hb
+    exact ⟨b', hb'⟩
+  · intro i j hij hj
+    rw [hm'] at hj
+    rw [hidx, lexLtK_congr _ (K0 t) _ j i (perm.getD j 0) (perm.getD i 0)
+      (fun d hd => ⟨hK d hd j hj, hK d hd i (by omega)⟩)]
+    exact hsorted i j hij hj
+  · intro d hd x y hx hy
+    rw [hm'] at hx hy
+    rw [hidx] at hd
+    rw [hK d hd x hx, hK d hd y hy]
+    exact (hcols d hd).cmp _ _ (perm_getD_lt hperm x hx) (perm_getD_lt hperm y hy)
+  · intro d hd x hx
+    rw [hm'] at hx
+    rw [hidx] at hd
+    rw [hK d hd x hx]
+    exact (hcols d hd).nn _ (perm_getD_lt hperm x hx)
+
+
+/-! ## `where` on a table in index order: the sortedness hypotheses discharge themselves -/
+
+theorem sortedSeg_of_indexed (t : Table) (N : Nat) (hix : Indexed t N) (j : Nat) (hj : j < t.indexes.length)
+    (segs : List (Nat × Nat)) (hs : StageInv (Kt t) (t.m N) (t.indexes.take j) (List.range (t.m N)) segs)
+    (p : Nat × Nat) (hp : p ∈ segs) : SortedSeg (t.vcol t.indexes[j]) p.1 p.2 := by
+  intro i i' a c e
+  have hb2 := hs.segs.bounds p hp
+  have hag : ∀ d ∈ t.indexes.take j, Kt t d i' = Kt t d i := by
+    intro d hd
+    have := hs.agree d hd p hp i' i (by omega) e a (by omega)
+    rwa [getD_range _ i (by omega), getD_range _ i' (by omega)] at this
+  have hsrt := hix.sorted i i' c (by omega)
+  have hsplit : t.indexes = t.indexes.take j ++ (t.indexes[j] :: t.indexes.drop (j + 1)) := by
+    rw [List.getElem_cons_drop, List.take_append_drop]
+  rw [hsplit, lexLtK_agree (Kt t) _ i' i hag] at hsrt
+  simp only [lexLtK] at hsrt
+  by_contra hcon
+  simp only [Bool.not_eq_false] at hcon
+  have : (Kt t t.indexes[j] i').lt (Kt t t.indexes[j] i) = true := hcon
+  simp [this] at hsrt
+
+/-- hypotheses on one keyword of a `where` on a table in index order: only the probes matter -/
+structure KwOKIdx (cfg : Cfg) (t : Table) (m : Nat) (pos : Option Op) (kw : Nat × Arg) : Prop where
+  incols : kw.1 ∈ t.columns
+  notin : ∀ a, kw.2 = .dict .notin a → cfg.notinKey = true
+  shape : ∀ op a, (condOf pos kw).test = .cmp op a → argShape op a = true
+  /-- indexed column: probes not `None`, comparable with the cells and with each other, distinct for
+  `in` (P8), not `Missing` under an order comparison; the table is not empty (P12) -/
+  bis : kw.1 ∈ t.indexes → ∀ op a, (condOf pos kw).test = .cmp op a →
+      (cfg.guardEmpty = true ∨ 0 < m) ∧ NoNone (probesOf a) ∧
+      (∀ v ∈ probesOf a, ∀ i, i < m → (cellAt (t.vcol kw.1) i).key.comparable v.key = true) ∧
+      allComparable (probesOf a) = true ∧
+      (op = .isin → cfg.dedupIn = true ∨ (probesOf a).Pairwise (fun u v => u.key ≠ v.key)) ∧
+      ((op = .lt ∨ op = .le ∨ op = .gt ∨ op = .ge) → ∀ v ∈ probesOf a, v.key ≠ .missing)
+  scan : kw.1 ∉ t.indexes → ∀ op a, (condOf pos kw).test = .cmp op a → leGeOK cfg op a (t.vcol kw.1)
+
+theorem kwOK_of_indexed (cfg : Cfg) (t : Table) (N : Nat) (hix : Indexed t N)
+    (lohis : List (Nat × List (Nat × Nat)))
+    (hlo : ∀ j (hj : j < t.indexes.length), ∃ segs, dictGet lohis t.indexes[j] = .ok segs ∧
+        StageInv (Kt t) (t.m N) (t.indexes.take j) (List.range (t.m N)) segs ∧ (0 < j → ∀ p ∈ segs, p.1 < p.2) ∧
+        (j = 0 → segs = [(0, t.m N)]))
+    (hvl : ∀ d ∈ t.indexes, (t.vcol d).length = t.m N)
+    (pos : Option Op) (kw : Nat × Arg) (h : KwOKIdx cfg t (t.m N) pos kw) : KwOK cfg t lohis (t.m N) pos kw := by
+  refine ⟨h.incols, h.notin, h.shape, ?_, h.scan⟩
+  intro hidx op a hc
+  obtain ⟨hne, hvn, hcmp, hall, hdup, hvm⟩ := h.bis hidx op a hc
+  obtain ⟨j, hj, hjk⟩ := List.getElem_of_mem hidx
+  obtain ⟨segs, e, hs, hnonempty, hfirst⟩ := hlo j hj
+  rw [hjk] at e
+  refine ⟨segs, e, hs.segs, ?_, hall, hdup, ?_⟩
+  · intro p hp
+    have hb2 := hs.segs.bounds p hp
+    refine ⟨hb2.2.1, by rw [hvl kw.1 hidx]; exact hb2.2.2, ?_, ?_, ?_, ?_, hvn⟩
+    · by_cases hj0 : 0 < j
+      · exact Or.inr (hnonempty hj0 p hp)
+      · -- first index column: the only segment is the whole table
+        have hj0' : j = 0 := by omega
+        rcases hne with g | g
+        · exact Or.inl g
+        · right
+          rw [hfirst hj0'] at hp
+          simp at hp
+          subst hp
+          exact g
+    · rw [← hjk]; exact sortedSeg_of_indexed t N hix j hj segs hs p hp
+    · intro i a1 a2
+      exact hix.nn kw.1 hidx i (by omega)
+    · intro v hv i a1 a2
+      exact hcmp v hv i (by omega)
+  · intro i hi
+    exact ⟨hix.nn kw.1 hidx i hi, fun v hv => hcmp v hv i hi, hvm⟩
+
+
+/-- `where` on a table in index order (e.g. right after `index`, or a `where` result of such a
+table): the answer is the plain filter, and the result is again in index order -/
+theorem where_indexed' (cfg : Cfg) (t : Table) (N : Nat) (hok : t.OK N) (hix : Indexed t N) (pos : Option Op)
+    (kws : List (Nat × Arg)) (hne : kws ≠ []) (hkw : ∀ kw ∈ kws, KwOKIdx cfg t (t.m N) pos kw) (hleak : NoLeak cfg kws)
+    (R rs : List (List Cell)) (hR : t.rows = .ok R)
+    (hspec : whereS { columns := t.columns, rows := R } (kws.map (condOf pos)) = .ok rs) :
+    ∃ t', t.pwhere cfg Option.none pos kws = .ok t' ∧ t'.rows = .ok rs ∧
+      t'.columns = t.columns ∧ t'.indexes = t.indexes ∧ t'.OK N ∧ Indexed t' N := by
+  have hvl : ∀ d ∈ t.indexes, (t.vcol d).length = t.m N := by
+    intro d hd
+    obtain ⟨b, hb⟩ := hix.stored d hd
+    exact hok.vcol_len hb
+  -- the lohis
+  have hlo : ∃ lohis, t.calcLohis cfg = .ok lohis ∧ ∀ kw ∈ kws, KwOK cfg t lohis (t.m N) pos kw := by
+    by_cases hie : t.indexes = []
+    · refine ⟨[], by simp [Table.calcLohis, hie], ?_⟩
+      intro kw hk
+      have h := hkw kw hk
+      exact ⟨h.incols, h.notin, h.shape, fun hidx => by rw [hie] at hidx; simp at hidx, h.scan⟩
+    · obtain ⟨lohis, e, hl⟩ := lohis_correct' cfg t N hok hix hie
+      exact ⟨lohis, e, fun kw hk => kwOK_of_indexed cfg t N hix lohis hl hvl pos kw (hkw kw hk)⟩
+  obtain ⟨lohis, el, hk⟩ := hlo
+  obtain ⟨t', a1, a2, a3, a4, a5, a6, selection, b1, b2, b3⟩ :=
+    where_eq_spec_aux cfg t N hok pos kws hne lohis el hk hleak R rs hR hspec
+  refine ⟨t', a1, a2, a3, a4, a6, ?_⟩
+  have : t' = { t with sel := t'.sel } := by
+    cases t'; simp_all
+  rw [this]
+  exact indexed_view t N hok hix t'.sel selection b1 b2 b3
+
+
+/-- `Indexed` as a check -/
+def indexedB (t : Table) (N : Nat) : Bool :=
+  decide t.indexes.Nodup && t.indexes.all (fun d => isOk (lookupCol t.data d)) &&
+  allIn 0 (t.m N) (fun j => allIn 0 (t.m N) (fun i => !(decide (i < j)) || !(lexLtK (Kt t) t.indexes j i))) &&
+  t.indexes.all (fun d => allIn 0 (t.m N) (fun x => Kt t d x != Key.none &&
+    allIn 0 (t.m N) (fun y => (Kt t d x).comparable (Kt t d y))))
+
+theorem indexedB_sound {t : Table} {N : Nat} (h : indexedB t N = true) : Indexed t N := by
+  simp only [indexedB, Bool.and_eq_true, decide_eq_true_eq, List.all_eq_true] at h
+  obtain ⟨⟨⟨h1, h2⟩, h3⟩, h4⟩ := h
+  refine ⟨h1, fun d hd => (isOk_iff _).mp (h2 d hd), ?_, ?_, ?_⟩
+  · intro i j hij hj
+    have := (allIn_iff _ _ _).mp ((allIn_iff _ _ _).mp h3 j (Nat.zero_le _) hj) i (Nat.zero_le _) (by omega)
+    simpa [hij] using this
+  · intro d hd x y hx hy
+    have := (allIn_iff _ _ _).mp (h4 d hd) x (Nat.zero_le _) hx
+    simp only [Bool.and_eq_true] at this
+    exact (allIn_iff _ _ _).mp this.2 y (Nat.zero_le _) hy
+  · intro d hd x hx
+    have := (allIn_iff _ _ _).mp (h4 d hd) x (Nat.zero_le _) hx
+    simp only [Bool.and_eq_true] at this
+    simpa using this.1
 
 
 end Coba.C17
